@@ -152,6 +152,111 @@ func h3connRun(sc h3connScenario) (closed int64, stops []int64, sent int, err er
 	return
 }
 
+// h3connRunRequest: one request stream with scripted bytes against the real server
+// (RawServerConn.handleRequestStream); observed: close code of the connection, RESET_STREAM code of
+// the response direction, :status of a response.
+func h3connRunRequest(data []byte, fin bool, maxHdr int) (closed, reset, status int64, err error) {
+	closed, reset, status = -1, -1, -1
+	berr := inBubble(func() {
+		e, eerr := newSimEnv(simOpts{
+			PlainPath: true, RTT: 4 * time.Millisecond,
+			ServerTLS: func(c *tls.Config) { c.NextProtos = []string{http3.NextProtoH3} },
+			ClientTLS: func(c *tls.Config) { c.NextProtos = []string{http3.NextProtoH3} },
+		})
+		if eerr != nil {
+			err = eerr
+			return
+		}
+		defer e.Close()
+		srv := &http3.Server{Handler: http.HandlerFunc(func(w http.ResponseWriter, r *http.Request) {}), Logger: nil, MaxHeaderBytes: maxHdr}
+		done := make(chan struct{})
+		go func() { defer close(done); srv.ServeListener(e.Ln) }()
+		ctx, cancel := context.WithTimeout(context.Background(), 10*time.Second)
+		peer, derr := e.Dial(ctx)
+		cancel()
+		if derr != nil {
+			err = derr
+			srv.Close()
+			<-done
+			return
+		}
+		time.Sleep(50 * time.Millisecond)
+		str, oerr := peer.OpenStream()
+		if oerr != nil {
+			err = oerr
+		} else {
+			str.Write(data)
+			if fin {
+				str.Close()
+			}
+			time.Sleep(150 * time.Millisecond)
+			str.SetReadDeadline(time.Now().Add(50 * time.Millisecond))
+			st, _, rerr := h3eReadResponse(str)
+			if st != "" {
+				fmt.Sscanf(st, "%d", &status)
+			}
+			var se *quic.StreamError
+			if errors.As(rerr, &se) && se.Remote {
+				reset = int64(se.ErrorCode)
+			}
+			select {
+			case <-peer.Context().Done():
+				var ae *quic.ApplicationError
+				if errors.As(context.Cause(peer.Context()), &ae) && ae.Remote {
+					closed = int64(ae.ErrorCode)
+				} else {
+					closed = -3
+				}
+				reset = -1 // the stream died with the connection
+			default:
+			}
+		}
+		peer.CloseWithError(0x100, "")
+		srv.Close()
+		<-done
+		time.Sleep(50 * time.Millisecond)
+	})
+	if berr != nil && err == nil {
+		err = berr
+	}
+	return
+}
+
+type h3connReq struct {
+	name   string
+	data   []byte
+	fin    bool
+	maxHdr int
+	closed int64 // expected by the RFC table (-1 stays open), reset, status; -2 = not in the table
+	reset  int64
+	status int64
+}
+
+func h3connReqTable(r *u.Rng) []h3connReq {
+	hdr := h3eHeaders(":method", "GET", ":scheme", "https", ":authority", "localhost", ":path", "/x")
+	var out []h3connReq
+	add := func(name string, data []byte, fin bool, maxHdr int, closed, reset, status int64) {
+		out = append(out, h3connReq{name, data, fin, maxHdr, closed, reset, status})
+	}
+	add("HEADERS first", hdr, true, 0, -1, -1, 200)
+	add("HEADERS first, stream left open", hdr, false, 0, -1, -1, 200)
+	add("unknown frames before HEADERS", append(h3eFrame(0x21, []byte{1, 2, 3}), hdr...), true, 0, -1, -1, 200)
+	add("DATA first", append(h3eFrame(0, []byte("x")), hdr...), true, 0, 0x105, -1, -1)
+	add("SETTINGS first", append(h3eFrame(4, nil), hdr...), true, 0, 0x105, -1, -1)
+	add("GOAWAY first", append(h3eFrame(7, []byte{0}), hdr...), true, 0, 0x105, -1, -1)
+	add("reserved frame first", append(h3eFrame(2, nil), hdr...), true, 0, 0x105, -1, -1)
+	add("empty stream", nil, true, 0, -1, 0x10d, -1)
+	add("HEADERS frame header cut, FIN", hdr[:1], true, 0, -1, 0x10d, -1)
+	add("header block cut, FIN", hdr[:len(hdr)-3], true, 0, -1, 0x10d, -1)
+	add("header block cut, stream open", hdr[:len(hdr)-3], false, 0, -1, -1, -1)
+	add("header block larger than MaxHeaderBytes", hdr, true, len(hdr)-4, -1, -1, 431)
+	// (a limit >= the block length is judged on the decoded field-section size: C19's territory)
+	add("header block one byte larger than MaxHeaderBytes", hdr, true, len(hdr)-3, -1, -1, 431)
+	add("GOAWAY with inconsistent length first", append(h3eFrame(7, []byte{0, 0}), hdr...), true, 0, -1, 0x10d, -1)
+	add("duplicate setting in a SETTINGS frame first", append(h3eFrame(4, []byte{0x21, 1, 0x21, 1}), hdr...), true, 0, -1, 0x10d, -1)
+	return out
+}
+
 func h3connFrame(t uint64, payload ...byte) []byte { return h3eFrame(t, payload) }
 
 func h3connTable() []h3connScenario {
@@ -302,6 +407,51 @@ func runH3Conn(w *bufio.Writer, seed uint64, n int, _ []string) {
 		if i < 2 {
 			fmt.Fprintf(w, "SAMPLE\t%s => closed=%#x stops=%v\n", input, closed, stops)
 		}
+	}
+	// request streams: the first-frame rule of the server
+	reqs := h3connReqTable(r0)
+	hdr := h3eHeaders(":method", "GET", ":scheme", "https", ":authority", "localhost", ":path", "/x")
+	for i := 0; i < len(reqs)+n/4; i++ {
+		r := r0.Fork()
+		var q h3connReq
+		if i < len(reqs) {
+			q = reqs[i]
+		} else {
+			q = h3connReq{name: "random", fin: r.Bool(), closed: -2, reset: -2, status: -2}
+			for k := r.Range(0, 2); k > 0; k-- {
+				q.data = append(q.data, h3eFrame(h3IgnorableType(r), r.Bytes(r.Range(0, 12)))...)
+			}
+			switch c := r.Intn(8); {
+			case c < 4:
+				q.data = append(q.data, hdr...)
+			case c == 4:
+				q.data = append(q.data, h3eFrame(uint64(r.Pick(0, 4, 7, 2, 6, 8, 9)), r.Bytes(r.Range(0, 3)))...)
+			case c == 5:
+				q.data = append(q.data, hdr[:r.Range(0, len(hdr)-1)]...)
+			default:
+				q.data = append(q.data, hdr...)
+				q.maxHdr = len(hdr) - 2 - r.Range(1, 6)
+			}
+		}
+		closed, reset, status, err := h3connRunRequest(q.data, q.fin, q.maxHdr)
+		input := fmt.Sprintf("server under test, request stream scenario %q: bytes %x fin=%v MaxHeaderBytes=%d", q.name, q.data, q.fin, q.maxHdr)
+		if err != nil {
+			key := "h3conn/harness"
+			if strings.HasPrefix(err.Error(), "panic:") {
+				key = "h3conn/panic"
+			}
+			fmt.Fprintf(w, "MONFAIL\t%s\t%v\t%s\n", key, err, input)
+			continue
+		}
+		if q.closed != -2 && (closed != q.closed || reset != q.reset || (q.status != -2 && status != q.status)) {
+			fmt.Fprintf(w, "MONFAIL\th3conn/request-first-frame\tfirst frame of a request stream: connection closed with %#x, stream reset with %#x, response status %d; want %#x / %#x / %d (-1 = none)\t%s\n", closed, reset, status, q.closed, q.reset, q.status, input)
+		}
+		mh := int64(q.maxHdr)
+		if mh <= 0 {
+			mh = int64(http.DefaultMaxHeaderBytes)
+		}
+		fmt.Fprintf(w, "CASE 1 %s\n", u.App("ReqCase", u.Hex(q.data), u.B(q.fin), u.Z(mh), u.Opt(closed != -1, u.Z(closed)), u.Opt(reset != -1, u.Z(reset)), u.Opt(status != -1, u.Z(status))))
+		dist["request-stream"]++
 	}
 	for k, v := range dist {
 		fmt.Fprintf(w, "DIST\t%s\t%d\n", k, v)
